@@ -16,6 +16,8 @@ import Proofs.TracksV2Hist
 import Proofs.TracksV2Get
 import Proofs.TracksV2Wf
 import Proofs.TracksV2Proj
+import Proofs.TracksV2Gone
+import Proofs.TracksV2NormLink
 
 namespace EngineModel.Properties.C06V2
 open EngineModel EngineModel.TracksV2 EngineModel.Prim
@@ -373,6 +375,91 @@ theorem v2_C06_statement_level (ops : FOps) (id : Nat) (σ : Setter) (db : TDb) 
     (callSet ops id σ db).1.toDb = (db.toDb.set ops id σ).1 ∧ (callSet ops id σ db).2 = (db.toDb.set ops id σ).2 :=
   callSet_toDb ops id σ hs
 
+
+/-! ### removed tracks, and the link to C01's normalisation -/
+
+/-- `track::update` keeps the table invariant (whatever its outcome). -/
+theorem v2_C06_dbok_update (ops : FOps) (s : Schema) (db : Db) (hok : DbOk ops db) (id : Nat) (x : Snap) :
+    DbOk ops (db.update ops s id x).1 := by
+  unfold Db.update
+  cases hw : writeStore ops s x with
+  | throw e => exact hok
+  | ub u => exact hok
+  | ok r =>
+    simp only []
+    split
+    · exact hok
+    · obtain ⟨henc, y, hy⟩ := v2_C06_written_rows ops s x r hw
+      constructor
+      · intro e he
+        unfold Db.put at he
+        simp only [List.mem_map] at he
+        obtain ⟨e0, he0, rfl⟩ := he
+        cases hid : (e0.1 == id) with
+        | false => simpa [hid] using hok.1 e0 he0
+        | true => simp only [hid, if_true]; exact ⟨henc, by rw [hy, snapOf_of_readSnap ops r y hy]⟩
+      · unfold Db.put
+        simp only [List.map_map]
+        have : (db.rows.map ((fun e : Nat × Row => e.1) ∘ fun e => if (e.1 == id) = true then (id, r) else e))
+            = db.rows.map (·.1) := by
+          apply List.map_congr_left
+          intro e he
+          simp only [Function.comp]
+          cases hid : (e.1 == id) with
+          | false => simp
+          | true => simp at hid; simp [hid]
+        rw [this]; exact hok.2
+
+/-- **A removed track stays removed, and every call on its handle is refused or
+a no-op.**  On the statement-level table: `remove_track` of an existing track
+returns normally and leaves no row for the id; from then on, through any
+history (ids are never reissued — AUTOINCREMENT), there is no row for it
+(`is_valid()` false, `snapshot()` `track_deleted`), every setter throws
+`track_row_id_error` without writing, `update` writes nothing, a second
+`remove_track` throws `invalid_argument`. -/
+theorem v2_C06_removed_track (ops : FOps) (s : Schema) (db : TDb) (hI : Inv db) (id : Nat) :
+    (∀ t, db.find id = some t → (callRemove id db).2 = .ok () ∧ Gone (callRemove id db).1 id) ∧
+    (Gone db id → ∀ hist : List TOp,
+      let db' := db.run ops s hist
+      db'.find id = none ∧
+      (∀ σ, callSet ops id σ db' = (db', .throw .runtime_error)) ∧
+      (∀ x, (callUpdate ops s id x db').1 = db') ∧
+      callRemove id db' = (db', .throw .invalid_argument)) := by
+  refine ⟨fun t hf => gone_of_remove hI hf, ?_⟩
+  intro hg hist db'
+  have hI' : Inv db' := inv_run ops s hist hI
+  have hg' : Gone db' id := gone_run ops s hist hI hg
+  refine ⟨hg'.1, fun σ => callSet_none ops σ hg'.1, ?_, ?_⟩
+  · intro x
+    unfold callUpdate
+    rw [M.lift_bind]
+    cases writeStore ops s x with
+    | throw e => rfl
+    | ub u => rfl
+    | ok r =>
+      simp only []
+      rw [M.bind_apply]
+      unfold M.stmt
+      simp only [updateStmt_none hg'.1]
+      rfl
+  · rw [callRemove_eq]
+    have : (db'.rows.filter fun e => e.id == id).length = 0 := by
+      rw [List.length_eq_zero_iff, List.filter_eq_nil_iff]
+      intro e he
+      simpa using find_none hg'.1 e he
+    simp [this]
+
+/-- **One normalisation.**  The value a setter must store (`Spec.newValue`, the
+oracle of this part) is the value `create_track` / `update` store for the same
+input (`Spec.normalize`, C01's oracle): if C01 accepts `x` and stores `y`, then
+for every field with a setter, setting it to `x`'s value must leave it holding
+`y`'s value (waveform: on a track with `x`'s sample count and rate). -/
+theorem v2_C06_norm_is_C01_norm (s : Schema) (x y : Snap) (h : Spec.normalize s x = some y) (f : Spec.Field)
+    (σ : Setter) (hσ : Spec.setterOf x f = some σ) (y0 : Snap)
+    (hw : f = .waveform → y0.sampleCount = x.sampleCount ∧ y0.sampleRate = x.sampleRate) :
+    Spec.newValue σ y0 = some (Spec.fieldOf y f) :=
+  Spec.newValue_eq_normalize s x y h f σ hσ y0 hw
+
 /-! ### non-vacuity -/
 
 def exOps : FOps := ⟨fun _ => 0, fun _ => 0, fun _ _ => 0⟩
@@ -406,5 +493,10 @@ example : ∃ r, (exDb.run exOps ([(2, .rating (some 3))] ++ (1, .rating (some 2
 example : ((exDb.get 1).bind fun r =>
     (applySetter exOps (.hotCueAt 3 (some ⟨[65], 0x40f5888000000000, ⟨255, 1, 2, 3⟩⟩)) r).toOption).isSome = true := by
   decide +kernel
+
+/-- removed tracks: the hypotheses are met by a real removal (track 2 of the example table of C11V2Tracks' shape) -/
+example : let db := ((TDb.empty [1]).run exOps .s2_21_0 [.create (exSnap 49), .create (exSnap 50)])
+    (db.find 2).isSome = true ∧ ((callRemove 2 db).1.find 2).isNone = true := by decide +kernel
+example : Spec.setterOf (exSnap 49) .rating = some (.rating none) ∧ Spec.setterOf (exSnap 49) .fileBytes = none := ⟨rfl, rfl⟩
 
 end EngineModel.Properties.C06V2
